@@ -194,10 +194,10 @@ func (w *srvWorld) callR(si int, addr int, cl *miniserver.Client, req *packet.Ha
 	case wantAllowed == Unknown:
 		vkit.Skipped(1)
 	case kind == "blacklisted" && wantAllowed == Yes:
-		fail(strings.Replace(blKey, "C18/blacklist/", "C18/handshake/blacklist/", 1), blWhy)
+		fail(blKey+"/via-handshake", blWhy)
 		return kind, resp, cl
 	case wantAllowed == No && !refused:
-		fail(strings.Replace(blKey, "C18/blacklist/", "C18/handshake/blacklist/", 1), "blacklisted address was not refused: "+blWhy)
+		fail(blKey+"/via-handshake", "blacklisted address was not refused: "+blWhy)
 		return kind, resp, cl
 	case wantAllowed == No && kind != "blacklisted":
 		w.undet[addr] = "blacklisted address refused by a later stage (" + kind + ")"
@@ -217,11 +217,11 @@ func (w *srvWorld) callR(si int, addr int, cl *miniserver.Client, req *packet.Ha
 		vkit.Skipped(1)
 	case kind == "banned" && wantBan == No:
 		key, why := w.bf[addr].classify(No, iv)
-		fail(strings.Replace(key, "C18/", "C18/handshake/", 1), "address below the threshold refused as banned: "+why)
+		fail(key+"/via-handshake", "address below the threshold refused as banned: "+why)
 		return kind, resp, cl
 	case wantBan == Yes && !refused:
 		key, why := w.bf[addr].classify(Yes, iv)
-		fail(strings.Replace(key, "C18/", "C18/handshake/", 1), "banned address was not refused: "+why)
+		fail(key+"/via-handshake", "banned address was not refused: "+why)
 		return kind, resp, cl
 	case wantBan == Yes && kind != "banned":
 		w.undet[addr] = "banned address refused by a later stage (" + kind + ")"
@@ -377,7 +377,7 @@ func runSrv(t vkit.TB, c SrvCase) {
 	// anonymous registrations per address never exceed rate + burst
 	for ai, obs := range w.anon {
 		if bad, detail := rateBound(obs, c.Cfg.Rate, c.Cfg.Burst); bad {
-			vkit.Violation(t, "C18/handshake/rate/anonymous-registrations-exceed-rate-and-burst", "address "+srvAddrs[ai]+": "+detail+" | trace: "+strings.Join(w.trace, " ; "), Replay{Kind: "server", Srv: &c})
+			vkit.Violation(t, "C18/rate/anonymous-registrations-exceed-rate-and-burst/via-handshake", "address "+srvAddrs[ai]+": "+detail+" | trace: "+strings.Join(w.trace, " ; "), Replay{Kind: "server", Srv: &c})
 			vkit.Case("known:C18/handshake/rate/anonymous-registrations-exceed-rate-and-burst", false, "")
 			return
 		}
